@@ -1,4 +1,6 @@
 import KdVerif.Proofs.Composite
+import KdVerif.Proofs.PyIRCo
+import KdVerif.Gen.PyIRCo
 /-
   C20 — composite traces reflect exactly the records nested in their window.
 
@@ -526,5 +528,70 @@ example : (thInfoOf env0 (sampleWin 1)).isSome = true ∧ stackOf env0 (sampleWi
 example : thInfoOf env0 (sampleWin 0x3ff6) = none ∧ stackOf env0 (sampleWin 0x3ff6) = none := by decide
 /-- header-less: bit 3 set, data records present, no header -/
 example : stackOf env0 ((sampleWin 8).eraseIdx 3) = none := by decide
+
+/-! ## Translation tie: the composite handlers are the translated source
+
+  `tools/gen_pyir_co.py` translates the source text of perf.py (`handle_event`, `handle_thd_data` and the other three
+  handlers, their dataclasses' `__str__`), of `handle_mach_vmfault` (mach.py) and of `handle_timing_launch_executable` with
+  the two image handlers it calls (dyld.py) into the Python-subset IR of `Model/PyIRCo` on every run (`Gen/PyIRCo`).  The
+  theorems below say that the generated terms, run by the big-step interpreter, ARE the hand-model functions the theorems
+  above speak about — for every environment (code table, enum tables), every meaning of the nested `parse_event_list`,
+  all tables and every non-empty window of four-word records (`Words4`: what `from_kd_buf` produces; the hand model
+  totalises `values[k]` with `getD`, the interpreter raises IndexError like Python). -/
+
+/-- **The translated source is the program the refinement lemmas were proved for** (`Spec/PyIRCoExpected`, quoting the
+    Python): every handler body, every `__str__`, the `handlers` entries of the three modules — and the translator met
+    nothing outside the subset. -/
+theorem source_is_expected_ir :
+    Gen.PyIRCo.perf = PyIRCo.Expected.perf ∧ Gen.PyIRCo.mach = PyIRCo.Expected.mach ∧
+    Gen.PyIRCo.dyld = PyIRCo.Expected.dyld ∧ Gen.PyIRCo.notes = [] := by decide
+
+section ir
+open PyIRCo
+variable (env : Env) (nested : NestedFn) (t : Tabs) (e : Kevent) (rest : List Kevent)
+
+/-- **`handle_thd_data`, interpreted, is `hPerfThdData`**: `threads_pids[word 1] = word 0`, the text
+    `PERF_THD_Data, pid: …, tid: …, dq_addr: 0x…, runmode: …` with the `KperfTiState` names of `word 3 & 0xffff`. -/
+theorem handle_thd_data_ir_eq_model (h4 : e.values.length = 4) :
+    runHandler Gen.PyIRCo.perf env nested "PERF_THD_Data" t (e :: rest) = hPerfThdData env t (e :: rest) := by
+  rw [source_is_expected_ir.1]; exact run_thdData env nested t e rest h4
+
+/-- **`handle_event`, interpreted, is `hPerfEvent`**: thread info (through the interpreted `handle_thd_data`, tables
+    included) iff `SamplerAction.SAMPLER_TH_INFO in sample_what` and the window holds a `PERF_THD_Data` record; user stack
+    iff `SAMPLER_USTACK` and a `PERF_STK_UHdr` record — frames = the first `nframes` words of the chained
+    `handle_stk_udata(parser, [ev]).frames`, flags from the interpreted `handle_stk_uhdr`; `str()` through the translated
+    `PerfEvent.__str__`; the payload read off the returned object. -/
+theorem handle_event_ir_eq_model (hw : Words4 (e :: rest)) :
+    runHandler Gen.PyIRCo.perf env nested "PERF_Event" t (e :: rest) = hPerfEvent env t (e :: rest) := by
+  rw [source_is_expected_ir.1]; exact run_event env nested t e rest hw
+
+/-- `sampler_spec` (and with it `sampler_thinfo_iff` … `sampler_recordless`) speaks about the translated source: the
+    subject `handle env t "PERF_Event"` of those theorems is the interpreted generated handler. -/
+theorem sampler_subject_is_source (hw : Words4 (e :: rest)) :
+    handle env t "PERF_Event" (e :: rest) = runHandler Gen.PyIRCo.perf env nested "PERF_Event" t (e :: rest) := by
+  rw [handle_event_ir_eq_model env nested t e rest hw]
+  show handleWith _ env t "PERF_Event" (e :: rest) = _
+  rw [handleWith_perf]
+
+end ir
+
+/-! #### non-vacuity: the generated handlers on concrete windows -/
+
+example : PyIRCo.Words4 (sampleWin 9) := by decide
+
+/-- the generated `handle_event` on the sample window with flags TH_INFO | USTACK: thread info of the FIRST `PERF_THD_Data`
+    record, six frames, `threads_pids[100] = 10` -/
+example :
+    (PyIRCo.runHandler Gen.PyIRCo.perf env0 (fun t _ => .ok (none, t)) "PERF_Event" {} (sampleWin 9)).toOption.map
+        (fun r => (r.1.map (·.text.toOption), r.2.threadsPids)) =
+      some (some (some "PERF_Event, sample_what: SAMPLER_TH_INFO | SAMPLER_USTACK, actionid: 1, frames count: 6"),
+        [(100, 10)]) := by decide +kernel
+
+/-- the generated `handle_thd_data` -/
+example :
+    (PyIRCo.runHandler Gen.PyIRCo.perf env0 (fun t _ => .ok (none, t)) "PERF_THD_Data" {}
+        [ev 2 0x25010000 0 [10, 100, 0x20, 5]]).toOption.map (fun r => (r.1.map (·.text.toOption), r.2.threadsPids)) =
+      some (some (some "PERF_THD_Data, pid: 10, tid: 100, dq_addr: 0x20, runmode: KPERF_TI_RUNNING | KPERF_TI_WAIT"),
+        [(100, 10)]) := by decide +kernel
 
 end KdVerif.C20
